@@ -119,9 +119,14 @@ func main() {
 		stmtYield[filepath.Join(*repo, f)] = true
 	}
 	knobsByFile := map[string][]KnobSpec{}
+	knobsByDir := map[string][]KnobSpec{}
 	for _, k := range cfg.Knobs {
 		p := filepath.Join(*repo, k.File)
-		knobsByFile[p] = append(knobsByFile[p], k)
+		if k.Kind == "const" {
+			knobsByDir[filepath.Dir(p)] = append(knobsByDir[filepath.Dir(p)], k)
+		} else {
+			knobsByFile[p] = append(knobsByFile[p], k)
+		}
 	}
 	sort.Slice(pkgs, func(i, j int) bool { return pkgs[i].PkgPath < pkgs[j].PkgPath })
 	for _, p := range pkgs {
@@ -135,7 +140,7 @@ func main() {
 				continue
 			}
 			rw := &rewriter{pkg: p, file: f, fset: p.Fset, rep: rep, path: path, rel: strings.TrimPrefix(path, *repo+"/"),
-				stmtYield: stmtYield[path], knobs: knobsByFile[path], overrides: cfg.Overrides}
+				stmtYield: stmtYield[path], knobs: append(append([]KnobSpec(nil), knobsByFile[path]...), knobsByDir[filepath.Dir(path)]...), overrides: cfg.Overrides}
 			changed := rw.run()
 			if !changed {
 				continue
@@ -695,34 +700,24 @@ func (r *rewriter) applyKnobs() {
 		hit := false
 		switch k.Kind {
 		case "const":
-			for _, d := range r.file.Decls {
-				gd, ok := d.(*ast.GenDecl)
-				if !ok || (gd.Tok != token.CONST && gd.Tok != token.VAR) {
-					continue
-				}
-				for si, sp := range gd.Specs {
-					vs := sp.(*ast.ValueSpec)
-					if len(vs.Names) != 1 || vs.Names[0].Name != k.Name || len(vs.Values) != 1 {
-						continue
-					}
-					lit := vs.Values[0]
-					vs.Values[0] = r.call("Knob", &ast.BasicLit{Kind: token.STRING, Value: strconv.Quote(k.Knob)}, lit)
-					if gd.Tok == token.CONST {
-						if len(gd.Specs) == 1 {
-							gd.Tok = token.VAR
-						} else {
-							// split the spec out of the const block into its own var decl
-							gd.Specs = append(gd.Specs[:si:si], gd.Specs[si+1:]...)
-							r.file.Decls = append(r.file.Decls, &ast.GenDecl{Tok: token.VAR, Specs: []ast.Spec{vs}})
-						}
-					}
-					hit = true
-					break
-				}
-				if hit {
-					break
-				}
+			// every use of the package-level constant becomes dsim.Knob(<knob>, <const>) so that the value is
+			// read at run time (the declaration stays a constant and is the default).
+			obj := r.pkg.Types.Scope().Lookup(k.Name)
+			if obj == nil {
+				break
 			}
+			astutil.Apply(r.file, nil, func(c *astutil.Cursor) bool {
+				id, ok := c.Node().(*ast.Ident)
+				if !ok || r.pkg.TypesInfo.Uses[id] != obj {
+					return true
+				}
+				if _, isSel := c.Parent().(*ast.SelectorExpr); isSel {
+					return true
+				}
+				c.Replace(r.call("Knob", &ast.BasicLit{Kind: token.STRING, Value: strconv.Quote(k.Knob)}, ast.NewIdent(k.Name)))
+				hit = true
+				return true
+			})
 		case "literal":
 			for _, d := range r.file.Decls {
 				fd, ok := d.(*ast.FuncDecl)
@@ -752,7 +747,16 @@ func (r *rewriter) applyKnobs() {
 			}
 		}
 		if hit {
-			r.rep.KnobsHit = append(r.rep.KnobsHit, k.File+":"+k.Knob)
+			id := k.File + ":" + k.Knob
+			dup := false
+			for _, h := range r.rep.KnobsHit {
+				if h == id {
+					dup = true
+				}
+			}
+			if !dup {
+				r.rep.KnobsHit = append(r.rep.KnobsHit, id)
+			}
 			r.count("knob")
 		}
 	}
